@@ -120,7 +120,29 @@ class Setup:
             except Exception:
                 pass
         self.validator = HedValidator(self.schema, def_dicts=self.def_dict)
+        self._unit_orc = None
         self.pool = self._pool()
+
+    def unit_oracle_bad(self, tag):
+        """Value texts with a bad unit part, from the unit grammar oracle of props.c11 (independent XML reading)."""
+        from props import c11
+        if self._unit_orc is None:
+            self._unit_orc = c11.Oracle(self.model)
+        orc = self._unit_orc
+        out = []
+        for u, uc in orc.units_of(tag):
+            if "unitPrefix" in u.attrs or " " in u.name:
+                continue
+            cands = [f"3.5 {u.name}s"] if "unitSymbol" in u.attrs else []
+            cands += [f"{u.name} 3.5", f"3.5 x {u.name}"]
+            for c in cands:
+                unit_text = c.split(" ", 1)[1] if c[0].isdigit() else c
+                if c[0].isdigit() and " x " not in c and orc.derivations(tag, unit_text):
+                    continue
+                out.append(c)
+            if len(out) >= 3:
+                break
+        return out[:3]
 
     def _pool(self):
         pool = [Leaf(t) for t in self.plain3[:2]]
@@ -195,6 +217,10 @@ def vocab_cases(st, t):
             fu = v.foreign_unit(t)
             if fu:
                 both("foreign-unit", t.name + "/3.5 " + fu)
+            # unit spellings that look right and are not: the plural of a symbol, a unit in front of the number, a word
+            # between number and unit (each only where the independent unit grammar of C11 finds no reading)
+            for ps in st.unit_oracle_bad(t):
+                both("unknown-unit", t.name + "/" + ps)
         if vcs == ["numericClass"]:
             unit = v.a_unit(t) if ucs else None
             both("non-numeric-value", t.name + "/abc" + (" " + unit if unit else ""))
